@@ -359,7 +359,7 @@ func (r *rw) isDense() bool {
 	return false
 }
 
-func (r *rw) memYield() ast.Stmt { return &ast.ExprStmt{X: hook("Yield", r.site("mem"))} }
+func (r *rw) memYield() ast.Stmt { return &ast.ExprStmt{X: hook("MemYield", r.site("mem"))} }
 
 func (r *rw) yield() ast.Stmt { return &ast.ExprStmt{X: hook("Yield", r.site("op"))} }
 
